@@ -264,7 +264,11 @@ macro_rules! impl_sum {
 
         impl<'a> std::iter::Sum<&'a $rhs> for $lhs {
             fn sum<I: Iterator<Item = &'a $rhs>>(iter: I) -> $rhs {
-                iter.sum()
+                let mut res = $rhs::ZERO;
+                for item in iter {
+                    res += *item;
+                }
+                res
             }
         }
     };
@@ -289,7 +293,11 @@ macro_rules! impl_product {
 
         impl<'a> std::iter::Product<&'a $rhs> for $lhs {
             fn product<I: Iterator<Item = &'a $rhs>>(iter: I) -> $rhs {
-                iter.product()
+                let mut res = $rhs::ONE;
+                for item in iter {
+                    res *= *item;
+                }
+                res
             }
         }
     };
